@@ -741,6 +741,10 @@ Proof.
   intros e He. apply in_app_or in He. destruct He; auto.
 Qed.
 
+Theorem retention_log_from_init c t0 h e :
+  In e (rlog (run c h (init t0))) -> r_max e < r_cutoff e.
+Proof. apply retention_log_only_old. intros e' []. Qed.
+
 (* a chunk leaves the catalog only through Swap (as a source) or Retention (old) *)
 Theorem catalog_removal_causes c s x p :
   amem N.eqb p (cat s) = true -> amem N.eqb p (cat (step c s x)) = false ->
